@@ -904,23 +904,40 @@ def merge_close_times(ctx) -> None:
            f"requested times would be merged away")
 
     def classify(test: ast.AST):
-        """polarity of the edge on which `t` is a near-duplicate, or None if the test is not the closeness test"""
+        """polarity of the edge on which `t` is a near-duplicate, or None if the test is not the closeness test.
+        Two spellings: `kept and t - kept[-1] <= tol` (true = close) and its De Morgan dual
+        `not kept or t - kept[-1] > tol` (true = far)."""
         pol = True
         while isinstance(test, ast.UnaryOp) and isinstance(test.op, ast.Not):
             test, pol = test.operand, not pol
-        if not (isinstance(test, ast.BoolOp) and isinstance(test.op, ast.And) and len(test.values) == 2):
+        if not (isinstance(test, ast.BoolOp) and len(test.values) == 2):
             return None
+        is_and = isinstance(test.op, ast.And)
         kept, cmp_ = test.values
+        if not is_and:
+            # `not kept or far`
+            if not (isinstance(kept, ast.UnaryOp) and isinstance(kept.op, ast.Not)):
+                return None
+            kept = kept.operand
         if not (isinstance(kept, ast.Name) and isinstance(cmp_, ast.Compare) and len(cmp_.ops) == 1):
             return None
         l, r, op = cmp_.left, cmp_.comparators[0], cmp_.ops[0]
-        if isinstance(op, (ast.Gt, ast.GtE)):
-            l, r, op = r, l, (ast.Lt() if isinstance(op, ast.Gt) else ast.LtE())
-        if not isinstance(op, (ast.Lt, ast.LtE)):
+        diff_l = util.text(l).replace(" ", "") == f"{t}-{kept.id}[-1]"
+        diff_r = util.text(r).replace(" ", "") == f"{t}-{kept.id}[-1]"
+        if not (diff_l or diff_r):
             return None
-        diff_ok = util.text(l).replace(" ", "") == f"{t}-{kept.id}[-1]"
-        tol_ok = util.const_value(prog, f.module, r, f) == tol
-        return (pol, kept.id) if diff_ok and tol_ok else None
+        other = r if diff_l else l
+        if util.const_value(prog, f.module, other, f) != tol:
+            return None
+        # orientation: diff OP tol
+        opn = type(op)
+        if diff_r:
+            opn = {ast.Lt: ast.Gt, ast.Gt: ast.Lt, ast.LtE: ast.GtE, ast.GtE: ast.LtE}.get(opn)
+        if is_and and opn in (ast.Lt, ast.LtE):
+            return (pol, kept.id)            # true edge = near-duplicate
+        if (not is_and) and opn in (ast.Gt, ast.GtE):
+            return (not pol, kept.id)        # true edge = far, so the near-duplicate edge is the other one
+        return None
 
     tests = [(n, classify(cfg.g.nodes[n]["ast"])) for n, st in cfg.stmts() if cfg.g.nodes[n]["kind"] == "test"]
     close = [(n, c) for n, c in tests if c is not None]
